@@ -182,6 +182,10 @@ class Prover:
         if op.get("o") not in ("copy", "move"):
             return None
         if op["p"]:
+            if len(op["p"]) == 1 and op["p"][0][0] == "f" and self.v.local_ty(op["l"]).get("k") == "tuple":
+                f = self._discr_form(op)
+                if f is not None:
+                    return f
             if op["p"] == [["f", 0]]:
                 # value half of a checked-arithmetic pair (overflow-checked builds); its assert is a site of its own
                 d = self.v.single_def(op["l"])
@@ -341,6 +345,19 @@ class Prover:
         t = od[2]
         name = ir.callee_name(t["fn"]) or ""
         args = t["args"]
+        if name in v.prog.bodies:
+            # a private helper that returns the position (plus a constant) of an element of a slice it was given:
+            # `fn significant_len(x: &[u64]) -> Option<usize> { x.iter().rposition(..).map(|i| i + 1) }`
+            sm = helper_summary(v.prog, name)
+            if sm is not None:
+                k, c = sm
+                if 0 <= k - 1 < len(args) and args[k - 1].get("o") in ("copy", "move") and not args[k - 1]["p"]:
+                    lf = self.len_form(args[k - 1]["l"])
+                    if lf is not None:
+                        x = atom_form(a)
+                        self._fact(a, x.add(Form(c), -1))                               # x - c >= 0
+                        self._fact(a, lf.add(x, -1).add(Form(c)).add(Form(1), -1))      # len - (x - c) - 1 >= 0
+            return
         if (name.endswith("::next") and ("Iterator" in name or "iter::range" in name)) or name.endswith("DoubleEndedIterator>::next_back"):
             # next(&mut iter): find the iterator local
             if not args or args[0].get("o") not in ("copy", "move") or args[0]["p"]:
@@ -481,12 +498,16 @@ class Prover:
     def branch_facts(self, site_block):
         v = self.v
         out = []
+        self._diseq[site_block] = []
         for b in v.dom.get(site_block, ()):
             t = v.blocks[b]["term"]
             if t["t"] != "switch":
                 continue
             dsc = t["discr"]
-            if not (dsc.get("o") in ("copy", "move") and not dsc["p"]):
+            if dsc.get("o") not in ("copy", "move"):
+                continue
+            if dsc["p"]:
+                self._int_switch_facts(b, t, dsc, site_block, out)     # `match (a.len(), b.len())`: field of a tuple
                 continue
             ch = v.chase(dsc)
             neg = False
@@ -494,6 +515,9 @@ class Prover:
                 ch = v.chase(ch[1]["a"])
                 neg = True
             if not (ch[0] == "rv" and ch[1]["r"] == "bin" and ch[1]["op"] in ("Lt", "Le", "Gt", "Ge", "Eq", "Ne")):
+                # `match x.len() { 1 => .., 2 => .., _ => .. }`: a switch on the integer itself
+                if not neg:
+                    self._int_switch_facts(b, t, dsc, site_block, out)
                 continue
             for s in v.succ.get(b, []):
                 vals = [val for val, bb in t["targets"] if bb == s]
@@ -523,6 +547,43 @@ class Prover:
                 elif op == "Ne":
                     self._diseq.setdefault(site_block, []).append(fa.add(fb, -1))
         return out
+
+    def _discr_form(self, dsc):
+        """Linear form of an integer switch discriminant: a plain local, or field i of a tuple literal
+        (`match (a.len(), b.len())`)."""
+        v = self.v
+        if dsc.get("o") not in ("copy", "move"):
+            return None
+        if not dsc["p"]:
+            if v.local_tyname(dsc["l"]) not in ("usize", "u64", "u32", "u16", "u8", "u128"):
+                return None
+            return self.form(dsc)
+        if len(dsc["p"]) == 1 and dsc["p"][0][0] == "f":
+            d = v.single_def(dsc["l"])
+            if d is not None and d[1] != "term" and d[2]["rv"]["r"] == "agg" and v.local_ty(dsc["l"]).get("k") == "tuple":
+                ops = d[2]["rv"]["ops"]
+                i = dsc["p"][0][1]
+                if i < len(ops) and dsc["l"] not in self._mut:
+                    o = ops[i]
+                    if o.get("o") == "const" or (not o["p"] and v.local_tyname(o["l"]) in ("usize", "u64", "u32", "u16", "u8", "u128")):
+                        return self.form(o)
+        return None
+
+    def _int_switch_facts(self, b, t, dsc, site_block, out):
+        v = self.v
+        f = self._discr_form(dsc)
+        if f is None:
+            return
+        for s in v.succ.get(b, []):
+            if not v.edge_dominates(b, s, site_block):
+                continue
+            vals = [val for val, bb in t["targets"] if bb == s]
+            if t["otherwise"] == s and not vals:
+                for val, _bb in t["targets"]:
+                    self._diseq.setdefault(site_block, []).append(f.add(Form(val), -1))
+            elif len(vals) == 1 and t["otherwise"] != s:
+                out.append(f.add(Form(vals[0]), -1))
+                out.append(Form(vals[0]).add(f, -1))
 
     # -- proving ----------------------------------------------------------------------------------------------------
     def _pre_facts(self):
@@ -578,13 +639,19 @@ class Prover:
             return True
         facts = self.facts_for(goal, site_block)
         # integer disequalities on dominating edges: d != 0 and d >= 0 give d - 1 >= 0
-        for d in self._diseq.get(site_block, []):
-            if not (set(d.t) & set(goal.t)):
-                continue
-            if self._search(d, facts):
-                facts.append(d.add(Form(1), -1))
-            elif self._search(Form(0).add(d, -1), facts):
-                facts.append(Form(0).add(d, -1).add(Form(1), -1))
+        pending = list(self._diseq.get(site_block, []))
+        for _round in range(4):     # x != 1 and x >= 1 give x >= 2, which with x != 2 gives x >= 3, ...
+            rest = []
+            for d in pending:
+                if self._search(d, facts):
+                    facts.append(d.add(Form(1), -1))
+                elif self._search(Form(0).add(d, -1), facts):
+                    facts.append(Form(0).add(d, -1).add(Form(1), -1))
+                else:
+                    rest.append(d)
+            if len(rest) == len(pending):
+                break
+            pending = rest
         return self._search(goal, facts)
 
     @staticmethod
@@ -621,6 +688,93 @@ class Prover:
 
     def le(self, a_form, b_form, site_block):
         return self.prove(b_form.add(a_form, -1), site_block)
+
+
+_HELPER_MEMO = {}
+
+
+def helper_summary(prog, key):
+    """(k, c) when the local function `key` returns -- as a usize or as the payload of an Option<usize> -- `i + c`
+    with i an index into the slice parameter k that `position` / `rposition` found (0 <= i < len(param k)); else None.
+    Decided on the helper's own MIR: the returned local is the result of rposition/position on `param.iter()`,
+    optionally passed through `Option::map` with a closure whose body is `arg + const`."""
+    if key in _HELPER_MEMO:
+        return _HELPER_MEMO[key]
+    _HELPER_MEMO[key] = None
+    b = prog.bodies.get(key)
+    if b is None or b["kind"] not in ("Fn", "AssocFn") or len(b["blocks"]) > 30:
+        return None
+    v = prog.view(key, None)
+    P = Prover(v)
+    d = v.single_def(0)
+    c = 0
+    hops = 0
+    while d is not None and hops < 4:
+        hops += 1
+        if d[1] != "term":
+            rv = d[2]["rv"]
+            if rv["r"] == "use" and rv["a"].get("o") in ("copy", "move") and not rv["a"]["p"]:
+                d = v.single_def(rv["a"]["l"])
+                continue
+            return None
+        t = d[2]
+        name = ir.callee_name(t["fn"]) or ""
+        args = t["args"]
+        if name.startswith("core::option::Option::<") and name.endswith("::map") and len(args) == 2:
+            clo = args[1]
+            ck = None
+            if clo.get("o") == "const" and clo.get("c") in ("closure", "fn"):
+                ck = clo.get("res") or clo.get("def")
+            elif clo.get("o") in ("copy", "move") and not clo["p"]:
+                cd = v.single_def(clo["l"])
+                if cd is not None and cd[1] != "term" and cd[2]["rv"]["r"] == "agg" and cd[2]["rv"].get("kind") == "closure" \
+                        and not cd[2]["rv"]["ops"]:
+                    ck = cd[2]["rv"]["def"]
+            if ck is None or ck not in prog.bodies:
+                return None
+            cv = prog.view(ck, None)
+            CP = Prover(cv)
+            cd0 = cv.single_def(0)
+            if cd0 is None or cd0[1] == "term":
+                return None
+            f = CP.form({"o": "copy", "l": 0, "p": []})
+            # the closure's value parameter is local 2 (local 1 is the closure environment)
+            if f is None or set(f.t) != {("l", 2)} or f.t[("l", 2)] != 1 or f.c < 0 or f.c.denominator != 1:
+                return None
+            c += int(f.c)
+            if not (args[0].get("o") in ("copy", "move") and not args[0]["p"]):
+                return None
+            d = v.single_def(args[0]["l"])
+            continue
+        if name.endswith("::rposition") or name.endswith("::position"):
+            if not args or args[0].get("o") not in ("copy", "move") or args[0]["p"]:
+                return None
+            it = args[0]["l"]
+            for _ in range(6):
+                dd = v.single_def(it)
+                if dd is None:
+                    return None
+                if dd[1] == "term":
+                    n2 = ir.callee_name(dd[2]["fn"]) or ""
+                    if n2 in ("core::slice::<impl [T]>::iter", "core::slice::<impl [T]>::iter_mut") and dd[2]["args"]:
+                        o = dd[2]["args"][0]
+                        if o.get("o") in ("copy", "move") and not o["p"]:
+                            r = P.root(o["l"])
+                            if v.is_arg(r) and P.stable(r):
+                                _HELPER_MEMO[key] = (r, c)
+                                return _HELPER_MEMO[key]
+                    return None
+                rv = dd[2]["rv"]
+                if rv["r"] == "ref" and (rv["pl"]["p"] == [] or rv["pl"]["p"] == ["deref"]):
+                    it = rv["pl"]["l"]
+                    continue
+                if rv["r"] == "use" and rv["a"].get("o") in ("copy", "move") and not rv["a"]["p"]:
+                    it = rv["a"]["l"]
+                    continue
+                return None
+            return None
+        return None
+    return None
 
 
 def parse_pre(view, specs):
